@@ -79,16 +79,17 @@ def in_range(t: float, dt: float, n: int, tol: float, wdtype: str = "float64", u
 # ---------------------------------------------------------------- interpolation (docstrings)
 
 
-def interp(name: str, older, newer, elapsed: float, dt: float, tau: float = 1.0):
+def interp(name: str, older, newer, elapsed: float, dt: float, tau: float = 1.0, exact_tie: bool = False):
     """Returns (value, ambiguous)."""
     if name == "previous":
         return older, False
     if name == "next":
         return newer, False
     if name == "nearest":
-        # nearest neighbour in time; exactly half a step is a tie (banded)
+        # nearest neighbour in time; exactly half a step is a tie: documented (t_s <= dt/2 -> older side) and decisive
+        # only when the arithmetic is exact (exact_tie), otherwise banded
         if abs(elapsed / dt - 0.5) < 1e-4:
-            return older, True
+            return older, not (exact_tie and elapsed * 2 == dt)
         return (newer if elapsed / dt > 0.5 else older), False
     if name == "linear":
         return older + (newer - older) / dt * elapsed, False
@@ -99,7 +100,7 @@ def interp(name: str, older, newer, elapsed: float, dt: float, tau: float = 1.0)
     raise ValueError(name)
 
 
-def extrap(name: str, x, elapsed: float, older, newer, dt: float, tau: float = 1.0):
+def extrap(name: str, x, elapsed: float, older, newer, dt: float, tau: float = 1.0, exact_tie: bool = False):
     """Returns ((value for the older slot, value for the newer slot), ambiguous)."""
     if name == "previous":
         return (x, newer), False
@@ -109,7 +110,7 @@ def extrap(name: str, x, elapsed: float, older, newer, dt: float, tau: float = 1
         return (x, x), False
     if name == "nearest":
         if abs(elapsed / dt - 0.5) < 1e-4:
-            return (x, newer), True
+            return (x, newer), not (exact_tie and elapsed * 2 == dt)
         return ((older, x) if elapsed > dt / 2 else (x, newer)), False
     if name == "linear_forward":
         return (older, older + (x - older) / elapsed * dt), False
